@@ -89,6 +89,28 @@ var histProgs = []string{
 	"let s=\"a,b,c\".split(\",\"); s.append(\"x\"+a).size()+s.size()+s.top(a%3).append(\"y\").size()",
 	"let c=numbers(5).map(x->[x,x+1]); c[a%5].append(b).size()+c[a%5].size()",
 	"let c=numbers(7).map(x->x+1); (c = numbers(a%9).map(x->x+1)) | (c.top(a%7) = numbers(a%7).map(x->x+1))",
+	// constant lazy pipelines of several stages, consumed lazily (never materialised) by closures that
+	// depend on the arguments: every evaluation re-runs the constant's stages
+	"let c=numbers(14).number((n,x)->n*100+x).map(x->x+1); c.map(x->x*a).reduce((p,q)->p+q)+c.accept(x->x%3=b%3).reduce((p,q)->p+q)",
+	"let c=numbers(14).combine((p,q)->p+q).map(x->x*2).accept(x->x%3!=0); c.map(x->x+a).reduce((p,q)->p+q)*1000+c.map(x->x*b).last()",
+	"let c=numbers(14).iir(x->x,(x,l)->(x+l)%1009).accept(x->x%2=0).map(x->x+5); c.reduce((p,q)->p+q+a)+c.mapReduce(b,(s,x)->s+x)",
+	"let c=numbers(14).combine3((p,q,r)->p+q*2+r).map(x->x%17); c.map(x->x+a).minMax(x->x).maxItem+c.map(x->x-b).first()",
+	"let c=numbers(14).compact((p,q)->p/3=q/3).map(x->x*x); c.map(x->x+a).string()+c.accept(x->x>b).string()",
+	"let c=numbers(5).cross([1,2,3],(p,q)->p*10+q).accept(x->x%4!=1); c.map(x->x*a).reduce((p,q)->p+q)+c.indexWhere(x->x>b*3)",
+	"let c=numbers(9).merge(numbers(7).map(y->y*2+1),(p,q)->p<q).map(x->x+1); c.map(x->x*a).reduce((p,q)->p+q)+c.top(b%9+1).reduce((p,q)->p+q)",
+	"let c=numbers(14).iirCombine(x->x,(i,j,l)->(j-i+l)%1009).map(x->x*3); c.visit(a,(v,x)->(v*31+x)%1000003)+c.map(x->x+b).last()",
+	"let c=numbers(14).fsm((s,x)->goto((s.state+x)%3)).map(s->s.state); c.map(x->x+a).reduce((p,q)->p*3+q)+c.accept(x->x=b%3).size()",
+	"let c=numbers(14).combineN(3,l->l[0]+l[2]).map(x->x+1); c.map(x->x*a).reduce((p,q)->p+q)+c.skip(b%5).first()",
+	"let c=numbers(14).map(x->x*2).number((n,x)->n+x).accept(x->x%5!=0); src.map(x->c.map(y->y*x+a).reduce((p,q)->p+q)).string()",
+	"let c=(numbers(6).map(x->x+1)+numbers(6).number((n,x)->n*x)).map(x->x*2); c.map(x->x+a).reduce((p,q)->p+q)+(if c.present(x->x=b*2) then 1 else 0)",
+	// constant lazy lists with an element that fails: every evaluation that reaches it has to fail again
+	"let c=[1,2,\"x\",4].map(e->e*2); c[a%4]",
+	"let c=[1,2,\"x\",4].map(e->e*2); try c.size()+a catch c[a%2]",
+	"let c=numbers(8).map(e->if e=5 then e.nokey else e+1); c.append(a).size()+b",
+	"let c=numbers(8).map(e->if e=5 then e.nokey else e+1); try c.reverse().first() catch c[a%5]+c.top(5).size()",
+	"let c=numbers(8).accept(e->if e=6 then e.nokey else e%2=0); (c = [0,2,4]) | (a=b)",
+	"let c=numbers(8).map(e->[e,e+1].map(x->if x=7 then x.nokey else x)); try c[a%8].sum() catch 0-1",
+	"let m={l:[3,\"q\",5].map(e->e+1), n:a}; try m.l[b%3] catch m.n",
 }
 
 func genHistArgs(r *rng) []Arg {
